@@ -454,4 +454,310 @@ Section Cover.
           subst. reflexivity.
     Qed.
   End Radius.
+
+  (* ---- find ---- *)
+  Lemma NoDup_app_l'' {X} (l l' : list X) : NoDup (l ++ l') -> NoDup l.
+  Proof.
+    induction l; simpl; intros H; [constructor|]. inversion H; subst. constructor; auto.
+    intros Hin. apply H2. apply in_or_app. now left.
+  Qed.
+
+  Section Find.
+    Variables (dmax dzero : D) (k : nat).
+    Hypothesis Hk : 1 <= k.
+    Notation heap := (heapsel D).
+    Definition dq' (o : option nat) : D := match o with Some i => dq i | None => dmax end.
+    Definition somes (l : list (option nat)) : list nat :=
+      flat_map (fun o : option nat => match o with Some i => [i] | None => [] end) l.
+    Definition fbound (s : heap) : D := hs_peek ltb dzero s.
+    Definition fupd (s : heap) (first : bool) (d : D) : heap :=
+      if negb first && ltb d (hs_peek ltb dzero s) then hs_add ltb leb dzero s d else s.
+    Definition FJ (s : heap) (O : list nat) : Prop :=
+      exists added S', hs_inv leb dzero k s added /\ hheap s <> [] /\
+                       Permutation (hheap s) (map dq' S') /\ NoDup (somes S') /\
+                       incl (somes S') O /\ (In None S' \/ length S' = k).
+
+    Lemma somes_perm l l' : Permutation l l' -> Permutation (somes l) (somes l').
+    Proof. apply Permutation_flat_map. Qed.
+
+    Lemma add_nonempty s added x : hs_inv leb dzero k s added -> hheap (hs_add ltb leb dzero s x) <> [].
+    Proof.
+      intros Inv. destruct (hs_add_inv ltb leb dzero PO k s added x Hk Inv) as (_ & _ & El & _).
+      intros E. rewrite E, app_length in El. simpl in El. lia.
+    Qed.
+    Lemma add_subset s added x y : hs_inv leb dzero k s added ->
+      In y (hheap (hs_add ltb leb dzero s x)) -> y = x \/ In y (hheap s).
+    Proof.
+      intros Inv Hy. destruct (hs_add_content ltb leb dzero PO k s added x Hk Inv)
+        as [(_ & P1)|[(_ & _ & P1)|(_ & _ & P1)]].
+      - eapply Permutation_in in Hy; [|exact P1]. destruct Hy; auto.
+      - assert (In y (x :: hheap s)) as [H|H]; auto.
+        eapply Permutation_in; [exact P1|]. now right.
+      - rewrite P1 in Hy. auto.
+    Qed.
+
+    Ltac fj_intro := split; [|split; [|split; [|split; [|split]]]].
+    Lemma FJ_add s O i : FJ s O -> ~ In i O -> FJ (hs_add ltb leb dzero s (dq i)) (i :: O).
+    Proof.
+      intros (added & S' & Inv & Hne & Pm & ND & Inc & Cl) Hi.
+      pose proof (hs_add_inv ltb leb dzero PO k s added (dq i) Hk Inv) as Inv'.
+      pose proof (add_nonempty s added (dq i) Inv) as Hne'.
+      assert (Hlen : length S' = length (hheap s)).
+      { apply Permutation_length in Pm. rewrite map_length in Pm. auto. }
+      assert (HiS : ~ In i (somes S')) by (intros X; apply Hi, Inc, X).
+      destruct (hs_add_content ltb leb dzero PO k s added (dq i) Hk Inv)
+        as [(Hlt & P1)|[(Hge & Ex & P1)|(Hge & Ex & P1)]].
+      - exists (added ++ [dq i]), (Some i :: S'). fj_intro; auto.
+        + eapply perm_trans; [exact P1|]. simpl. now constructor.
+        + simpl. constructor; auto.
+        + intros y [<-|Hy]; [now left|right; now apply Inc].
+        + left. right. destruct Cl as [Cl|Cl]; auto. exfalso.
+          destruct Inv as (_ & _ & El & _). lia.
+      - set (top := nth 0 (hheap s) dzero) in *.
+        assert (Htop : In top (map dq' S')).
+        { eapply Permutation_in; [exact Pm|]. unfold top. destruct (hheap s); [congruence|simpl; auto]. }
+        apply in_map_iff in Htop. destruct Htop as (o & Ho & Hin).
+        apply in_split in Hin. destruct Hin as (l1 & l2 & ES).
+        assert (PS : Permutation S' (o :: l1 ++ l2)) by (rewrite ES; apply Permutation_sym, Permutation_middle).
+        exists (added ++ [dq i]), (Some i :: l1 ++ l2). fj_intro; auto.
+        + apply Permutation_cons_inv with (a := top).
+          eapply perm_trans; [exact P1|].
+          eapply perm_trans; [apply perm_skip, Pm|].
+          eapply perm_trans; [apply perm_skip, Permutation_map, PS|].
+          simpl. rewrite Ho. apply perm_swap.
+        + pose proof (somes_perm _ _ PS) as PS'.
+          assert (ND' : NoDup (somes (o :: l1 ++ l2))) by (eapply Permutation_NoDup; eauto).
+          simpl. constructor.
+          * intros X. apply HiS. eapply Permutation_in; [apply Permutation_sym, PS'|].
+            simpl. apply in_or_app. now right.
+          * simpl in ND'. now apply NoDup_app_l' in ND'.
+        + intros y [<-|Hy]; [now left|]. right. apply Inc.
+          eapply Permutation_in; [apply Permutation_sym, somes_perm, PS|]. simpl. apply in_or_app. now right.
+        + right. simpl. apply Permutation_length in PS. simpl in PS. rewrite <- PS, Hlen.
+          destruct Inv as (_ & _ & El & _). lia.
+      - exists (added ++ [dq i]), S'. fj_intro; auto.
+        + rewrite P1. exact Pm.
+        + intros y Hy. right. now apply Inc.
+    Qed.
+
+    Lemma FJ_bound_mono s f d O : FJ s O -> fbound (fupd s f d) <== fbound s.
+    Proof.
+      intros (added & S' & Inv & Hne & _). unfold fupd, fbound.
+      destruct (negb f && ltb d (hs_peek ltb dzero s)) eqn:E; [|apply (leb_refl _ _ PO)].
+      apply andb_true_iff in E. destruct E as [_ E].
+      pose proof (hs_add_inv ltb leb dzero PO k s added d Hk Inv) as Inv'.
+      destruct (hs_peek_spec ltb leb dzero PO _ _ _ Inv' (add_nonempty s added d Inv)) as [P1 _].
+      destruct (hs_peek_spec ltb leb dzero PO _ _ _ Inv Hne) as [_ P2].
+      apply (add_subset s added d _ Inv) in P1. destruct P1 as [->|P1].
+      - now apply (ltb_true _ _ PO).
+      - now apply P2.
+    Qed.
+    Lemma FJ_new s i O : FJ s O -> ~ In i O -> FJ (fupd s false (dq i)) (i :: O).
+    Proof.
+      intros HJ Hi. unfold fupd. cbn [negb andb].
+      destruct (ltb (dq i) (hs_peek ltb dzero s)); [now apply FJ_add|].
+      destruct HJ as (added & S' & Inv & Hne & Pm & ND & Inc & Cl).
+      exists added, S'. fj_intro; auto. intros y Hy. right. now apply Inc.
+    Qed.
+    Lemma FJ_incl s O O' : FJ s O -> incl O O' -> FJ s O'.
+    Proof.
+      intros (added & S' & Inv & Hne & Pm & ND & Inc & Cl) H.
+      exists added, S'. fj_intro; auto. intros y Hy. apply H, Inc, Hy.
+    Qed.
+    Lemma FJ_init i :
+      FJ (hs_add ltb leb dzero (hs_add ltb leb dzero (with_capacity k) dmax) (dq i)) [i].
+    Proof.
+      apply FJ_add; [|intros []].
+      pose proof (hs_inv_init leb dzero k) as I0.
+      pose proof (hs_add_inv ltb leb dzero PO k _ _ dmax Hk I0) as I1. simpl in I1.
+      exists [dmax], [None]. fj_intro; auto.
+      - apply (add_nonempty _ [] dmax I0).
+      - destruct (hs_add_content ltb leb dzero PO k _ [] dmax Hk I0) as [(_ & P1)|[(Hge & _)|(Hge & _)]];
+          [exact P1|simpl in Hge; lia|simpl in Hge; lia].
+      - simpl. constructor.
+      - intros y [].
+      - left. now left.
+    Qed.
+
+    (* model loops = the generic traversal instantiated with the heap *)
+    Lemma find_visit_eq st c pd ch :
+      find_visit ltb leb plus dzero dq st c pd ch = gvisit fbound fupd st c pd ch.
+    Proof. destruct st as ((h, X), Z). reflexivity. Qed.
+    Lemma find_level_eq cur h zero :
+      find_level ltb leb plus dzero dq cur h zero = glevel fbound fupd cur h zero.
+    Proof.
+      unfold find_level, glevel. rewrite (nested_fold (find_visit ltb leb plus dzero dq)).
+      apply fold_left_ext. intros st t. apply find_visit_eq.
+    Qed.
+    Lemma find_levels_eq fuel : forall cur h zero,
+      find_levels ltb leb plus dzero fuel dq cur h zero = glevels fbound fupd fuel cur h zero.
+    Proof.
+      induction fuel; intros [|x cur] h zero; cbn [find_levels glevels]; auto.
+      rewrite find_level_eq. destruct (glevel fbound fupd (x :: cur) h zero) as ((h1, X1), Z1). apply IHfuel.
+    Qed.
+
+    (* ---- from "everything within the final bound" to "the k nearest" ---- *)
+    Notation sorted_asc := (StronglySorted (fun a b : nat * D => snd a <== snd b)).
+    Lemma insert_asc_perm x l : Permutation (insert_asc ltb x l) (x :: l).
+    Proof.
+      induction l as [|y t IH]; simpl; auto. destruct (ltb (snd y) (snd x)); auto.
+      eapply perm_trans; [apply perm_skip, IH|apply perm_swap].
+    Qed.
+    Lemma sort_asc_perm l : Permutation (sort_asc ltb l) l.
+    Proof. induction l; simpl; auto. eapply perm_trans; [apply insert_asc_perm|]. now constructor. Qed.
+    Lemma insert_asc_sorted x l : sorted_asc l -> sorted_asc (insert_asc ltb x l).
+    Proof.
+      induction 1 as [|y t Ht IH Hy]; simpl; [repeat constructor|].
+      destruct (ltb (snd y) (snd x)) eqn:E.
+      - constructor; auto. eapply Permutation_Forall; [apply Permutation_sym, insert_asc_perm|].
+        constructor; auto. now apply (ltb_true _ _ PO).
+      - constructor; [constructor; auto|]. constructor; [now apply (ltb_false _ _ PO)|].
+        eapply Forall_impl; [|exact Hy]. intros a Ha. simpl in Ha.
+        eapply (leb_trans _ _ PO); [apply (ltb_false _ _ PO); exact E|exact Ha].
+    Qed.
+    Lemma sort_asc_sorted l : sorted_asc (sort_asc ltb l).
+    Proof. induction l; simpl; [constructor|now apply insert_asc_sorted]. Qed.
+    Lemma sorted_app_le (l1 l2 : list (nat * D)) : sorted_asc (l1 ++ l2) ->
+      forall a b, In a l1 -> In b l2 -> snd a <== snd b.
+    Proof.
+      induction l1 as [|x l1 IH]; simpl; intros H a b Ha Hb; [contradiction|].
+      inversion H as [|? ? Hs Hf]; subst. destruct Ha as [<-|Ha]; [|eapply IH; eauto].
+      rewrite Forall_forall in Hf. apply Hf. apply in_or_app. now right.
+    Qed.
+
+    Lemma ball_to_knn n ub res0 : is_ball leb dq n ub res0 -> k <= length res0 ->
+      is_knn leb dq n k (firstn k (if k <? length res0 then sort_asc ltb res0 else res0)).
+    Proof.
+      intros [ND B] Hlen.
+      assert (Far : forall j, j < n -> ~ In j (map fst res0) -> forall i d, In (i, d) res0 -> d <== dq j).
+      { intros j Hj Hnin i d Hid. apply B in Hid. destruct Hid as (_ & -> & Hle).
+        eapply (leb_trans _ _ PO); [exact Hle|]. apply (leb_false _ _ PO).
+        destruct (leb (dq j) ub) eqn:E; auto. exfalso. apply Hnin.
+        apply in_map_iff. exists (j, dq j). split; auto. apply B. auto. }
+      destruct (k <? length res0) eqn:E.
+      - apply Nat.ltb_lt in E. set (l := sort_asc ltb res0).
+        pose proof (sort_asc_perm res0) as Pl. fold l in Pl.
+        pose proof (sort_asc_sorted res0) as Sl. fold l in Sl.
+        rewrite <- (firstn_skipn k l) in Sl.
+        assert (Hin : forall x, In x (firstn k l) -> In x res0).
+        { intros x Hx. eapply Permutation_in; [exact Pl|]. rewrite <- (firstn_skipn k l). apply in_or_app. now left. }
+        assert (NDl : NoDup (map fst (firstn k l) ++ map fst (skipn k l))).
+        { rewrite <- map_app, firstn_skipn. eapply Permutation_NoDup; [apply Permutation_map, Permutation_sym, Pl|exact ND]. }
+        split; [|split; [|split]].
+        + rewrite firstn_length_le; auto. rewrite (Permutation_length Pl). lia.
+        + eapply NoDup_app_l''. exact NDl.
+        + intros i d Hid. apply Hin, B in Hid. tauto.
+        + intros i d j Hid Hj Hnin.
+          destruct (in_dec Nat.eq_dec j (map fst (skipn k l))) as [Hs|Hs].
+          * apply in_map_iff in Hs. destruct Hs as ((j', d') & Hj' & Hs). simpl in Hj'. subst j'.
+            assert (Hd' : d' = dq j).
+            { assert (In (j, d') res0).
+              { eapply Permutation_in; [exact Pl|]. rewrite <- (firstn_skipn k l). apply in_or_app. now right. }
+              apply B in H. tauto. }
+            subst d'. apply (sorted_app_le _ _ Sl (i, d) (j, dq j) Hid Hs).
+          * apply (Far j Hj) with (i := i); [|now apply Hin].
+            intros X. eapply Permutation_in in X; [|apply Permutation_map, Permutation_sym, Pl].
+            rewrite <- (firstn_skipn k l), map_app in X. apply in_app_or in X. tauto.
+      - apply Nat.ltb_ge in E. assert (k = length res0) by lia. subst k. rewrite firstn_all.
+        split; [|split; [|split]]; auto.
+        + intros i d Hid. apply B in Hid. tauto.
+        + intros i d j Hid Hj Hnin. eapply Far; eauto.
+    Qed.
+
+    Lemma filter_nodup (Z : list (D * tree)) ub : NoDup (ZL Z) ->
+      NoDup (map fst (flat_map (fun ds : D * tree => if leb (fst ds) ub then [(t_idx (snd ds), fst ds)] else []) Z)).
+    Proof.
+      induction Z as [|z Z IH]; simpl; intros H; [constructor|]. inversion H; subst.
+      rewrite map_app. destruct (leb (fst z) ub); simpl; auto.
+      constructor; auto. intros X. apply H2. apply in_map_iff in X. destruct X as ((i, d) & Hi & X).
+      apply in_flat_map in X. destruct X as (z' & Hz' & X). destruct (leb (fst z') ub); [|contradiction].
+      destruct X as [X|[]]. inversion X; subst. simpl. unfold ZL. apply in_map_iff. exists z'. auto.
+    Qed.
+    Lemma somes_all l : ~ In None l -> length (somes l) = length l /\ forall j, In j (somes l) <-> In (Some j) l.
+    Proof.
+      induction l as [|[j|] l IH]; simpl; intros H.
+      - split; auto. intros; tauto.
+      - destruct IH as [IH1 IH2]; [tauto|]. split; [lia|]. intros j'. rewrite IH2.
+        split; (intros [X|X]; [left; congruence|right; exact X]).
+      - exfalso. apply H. now left.
+    Qed.
+
+    Theorem cover_find_exact n (root : tree) :
+      wf_root leb dpp n root = true -> (forall i, i < n -> dq i <== dmax) -> k <= n ->
+      exists res, cover_find ltb leb plus dmax dzero dq root n k = Some res /\ is_knn leb dq n k res.
+    Proof.
+      intros W Hmax Hkn. unfold cover_find.
+      replace (k =? 0) with false by (symmetry; apply Nat.eqb_neq; lia).
+      replace (n <? k) with false by (symmetry; apply Nat.ltb_ge; lia).
+      rewrite find_levels_eq.
+      destruct (gtraverse fbound fupd FJ (fun _ => True) FJ_bound_mono
+                          (fun s d O H => H) FJ_new FJ_incl (fun _ _ _ => I) n root _ W (FJ_init (t_idx root)))
+        as (s & Z & Dr & E & Gc & Gd & GZ & GJ).
+      rewrite E. eexists; split; [reflexivity|].
+      set (ub := hs_peek ltb dzero s).
+      set (res0 := flat_map (fun ds : D * tree => if leb (fst ds) ub then [(t_idx (snd ds), fst ds)] else []) Z).
+      destruct (wf_root_facts n root W) as (_ & _ & Pm & NDc).
+      assert (NDZ : NoDup (ZL Z)).
+      { apply (NoDup_count_occ Nat.eq_dec). intros x. specialize (Gc x). specialize (NDc x). lia. }
+      assert (Hin0 : forall i d, In (i, d) res0 <-> exists N, In (d, N) Z /\ t_idx N = i /\ d <== ub).
+      { intros i d. unfold res0. rewrite in_flat_map. split.
+        - intros ((d', N) & Hz & X). cbn [fst snd] in X. destruct (leb d' ub) eqn:El; [|contradiction].
+          destruct X as [X|[]]. inversion X; subst. eauto.
+        - intros (N & Hz & <- & Hle). exists (d, N). split; auto. cbn [fst snd]. rewrite Hle. now left. }
+      assert (Ball : is_ball leb dq n ub res0).
+      { split; [apply filter_nodup, NDZ|]. intros i d. rewrite Hin0. split.
+        - intros (N & Hz & <- & Hle). destruct (GZ _ Hz) as (H1 & _). cbn [fst snd] in H1. subst d.
+          split; [|split; auto].
+          assert (Hin : In (t_idx N) (leaves root)).
+          { apply cnt_in. specialize (Gc (t_idx N)).
+            assert (1 <= cnt (ZL Z) (t_idx N)) by (apply cnt_in, in_map_iff; exists (dq (t_idx N), N); auto). lia. }
+          eapply Permutation_in in Hin; [|exact Pm]. apply in_seq in Hin. lia.
+        - intros (Hi & -> & Hle).
+          assert (Hin : In i (leaves root)).
+          { eapply Permutation_in; [apply Permutation_sym, Pm|]. apply in_seq. lia. }
+          apply cnt_in in Hin. rewrite Gc in Hin.
+          assert (HZ : In i (ZL Z)).
+          { destruct (in_dec Nat.eq_dec i (ZL Z)) as [H|H]; auto. exfalso.
+            assert (In i Dr) by (apply cnt_in; apply (count_occ_not_In Nat.eq_dec) in H; lia).
+            specialize (Gd i H0). unfold fbound in Gd. fold ub in Gd.
+            rewrite (ltb_leb _ _ PO), Hle in Gd. discriminate. }
+          unfold ZL in HZ. apply in_map_iff in HZ. destruct HZ as ((d', N) & Hidx & Hz). cbn [snd] in Hidx.
+          exists N. destruct (GZ _ Hz) as (H1 & _). cbn [fst snd] in H1. subst. auto. }
+      assert (Hcount : k <= length res0).
+      { destruct GJ as (added & S' & Inv & Hne & PmS & NDS & Inc & Cl).
+        destruct (hs_peek_spec ltb leb dzero PO _ _ _ Inv Hne) as [_ Hpk]. fold ub in Hpk.
+        assert (Hall : forall j, j < n -> dq j <== ub -> In j (map fst res0)).
+        { intros j Hj Hle. apply in_map_iff. exists (j, dq j). split; auto. apply Ball. auto. }
+        assert (HOn : forall j, In j (ZL Z ++ Dr) -> j < n).
+        { intros j Hj. assert (In j (leaves root)).
+          { apply cnt_in. rewrite Gc. apply in_app_or in Hj. destruct Hj as [Hj|Hj]; apply cnt_in in Hj; lia. }
+          eapply Permutation_in in H; [|exact Pm]. apply in_seq in H. lia. }
+        destruct (in_dec (fun a b : option nat => ltac:(decide equality; apply Nat.eq_dec)) None S') as [HN|HN].
+        - assert (dmax <== ub).
+          { apply Hpk. eapply Permutation_in; [apply Permutation_sym, PmS|]. apply in_map_iff. exists None; auto. }
+          assert (incl (seq 0 n) (map fst res0)).
+          { intros j Hj. apply in_seq in Hj. apply Hall; [lia|].
+            eapply (leb_trans _ _ PO); [apply Hmax; lia|exact H]. }
+          pose proof (NoDup_incl_length (seq_NoDup n 0) H0) as L. rewrite seq_length, map_length in L. lia.
+        - destruct Cl as [Cl|Cl]; [contradiction|].
+          destruct (somes_all S' HN) as [L1 L2].
+          assert (incl (somes S') (map fst res0)).
+          { intros j Hj. apply Hall; [apply HOn, Inc, Hj|]. apply Hpk.
+            eapply Permutation_in; [apply Permutation_sym, PmS|]. apply in_map_iff. exists (Some j). split; auto.
+            now apply L2. }
+          pose proof (NoDup_incl_length NDS H) as L. rewrite map_length in L. lia. }
+      exact (ball_to_knn n ub res0 Ball Hcount).
+    Qed.
+  End Find.
 End Cover.
+
+(* parameter errors of the cover-tree queries *)
+Lemma cover_find_error {D} (ltb leb : D -> D -> bool) plus dmax dzero dq (root : ctree D) n k :
+  k = 0 \/ n < k -> cover_find ltb leb plus dmax dzero dq root n k = None.
+Proof.
+  intros H. unfold cover_find. destruct (k =? 0) eqn:E; auto.
+  apply Nat.eqb_neq in E. replace (n <? k) with true; auto. symmetry. apply Nat.ltb_lt. lia.
+Qed.
+Lemma cover_radius_error {D} (leb : D -> D -> bool) plus dzero dq (root : ctree D) r :
+  leb r dzero = true -> cover_find_radius leb plus dzero dq root r = None.
+Proof. intros H. unfold cover_find_radius. now rewrite H. Qed.
